@@ -40,7 +40,13 @@ def check_text(ctx, fmt, basis, header, label):
     # body = bare text without the psi4 keyword line
     pre = ''
     if fmt == 'psi4':
-        pre = bare[1][:bare[1].index('\n\n') + 2]
+        # psi4 needs spherical / cartesian as its first non-comment line: with and without a header the text starts with it
+        pre = ('cartesian' if 'gto_cartesian' in basis['function_types'] else 'spherical') + '\n\n'
+        for which, txt in (('without a header', bare[1]), ('with a header', headed[1])):
+            if not txt.startswith(pre):
+                ctx.violation('writers.write_formatted_basis_str', 'psi4-keyword', 'the psi4 text %s does not start with the line %r (it starts %r)'
+                              % (which, pre.strip(), txt[:30]), replay)
+                return None
     body = bare[1][len(pre):]
     if ctx.model is not None and len(bare[1]) < 150000:
         m = ctx.model.call('write_formatted', fmt, list(basis['function_types']), body, header)
@@ -115,6 +121,11 @@ def work_store(ctx, item):
         if out:
             if out[1] != h[1] or out[0] != n[1]:
                 ctx.violation('api.get_basis', 'differs-from-writer', 'get_basis(fmt=%s) text differs from write_formatted_basis_str with the API header' % fmt,
+                              {'kind': 'get_basis', 'name': name, 'fmt': fmt})
+            if formats()[fmt]['comment'] is not None and ('Basis set: ' + b['name'] + '\n') not in h[1][:len(h[1]) - len(n[1])]:
+                # the name the header states is the name of the dictionary (the one the payload carries), also for a basis
+                # requested under a name that is not the first of its family's list of names
+                ctx.violation('api._header_string', 'states-name', 'the header does not state the name %r of the basis it heads' % b['name'],
                               {'kind': 'get_basis', 'name': name, 'fmt': fmt})
             for needle in (b['name'], b['role'], b['version'], api.version()):
                 if formats()[fmt]['comment'] is not None and needle not in h[1][:len(h[1]) - len(n[1]) + 80]:
@@ -196,6 +207,8 @@ def run(ctx):
         pairs = store.all_pairs(md)
     else:
         pairs = [(n, md[n]['latest_version']) for n in store.sample_names(ctx.rng, 30, md)]
+        # names that are not the first entry of their family's list of names (ten in the store)
+        pairs += [(n, md[n]['latest_version']) for n in ('6-31g(d,p)', 'midix') if n in md]
     store.parallel(ctx, work_store, pairs)
     store.parallel(ctx, work_generated, [ctx.seed * 53 + i for i in range(ctx.budget(60, 3000))])
 
